@@ -17,6 +17,19 @@ def roles(oFile, K):
     return out
 
 
+_DELIM = ("(", ")", ",", ";", ":", ":=", "<=", "=>")
+
+
+def _word(v):
+    return v != "" and all(c.isalnum() or c == "_" for c in v) and not v[0].isdigit()
+
+
+def _separable(a, b):
+    """a delimiter next to a plain word or to a parenthesis (numbers, literals, ticks and dots are left alone: VSG's tokens are finer
+    than VHDL's lexical elements there, and white space inside a lexical element would change the text's meaning)"""
+    return (a in _DELIM and (_word(b) or b in ("(", ")"))) or (b in _DELIM and (_word(a) or a in ("(", ")")))
+
+
 def relayout(oFile, K, kind, r):
     """returns list of lines"""
     toks = oFile.lAllObjects
@@ -50,6 +63,11 @@ def relayout(oFile, K, kind, r):
             v = "\n" + " " * r.randint(0, 4) + r.choice(["-- xilinx workaround", "-- altera only", "-- synopsys translate_off", "-- pragma coverage_off", "-- synthesis translate_on"]) + "\n" + " " * r.randint(0, 4)
         elif kind == "pragma" and k == "code" and v == "(" and i + 1 < n and kinds[i + 1] == "code" and r.random() < 0.3:
             v = "(\n-- pragma keep\n"
+        elif kind == "sep" and k == "code" and i > 0 and kinds[i - 1] == "code" and _separable(vals[i - 1], v) and r.random() < 0.5:
+            # two code tokens written without white space, one of them a delimiter: white space (sometimes a line break, sometimes a
+            # comment and a line break) may stand between any two lexical elements
+            m = r.random()
+            v = (" " * r.randint(1, 2) if m < 0.7 else "\n" + " " * r.randint(0, 4) if m < 0.85 else " -- sep\n" + " " * r.randint(0, 4)) + v
         out.append("\n" if (k == "cr" and v == vals[i]) else v)
     text = "".join(out)
     lines = text.split("\n")
@@ -66,7 +84,7 @@ def one(path):
     base = roles(o, K)
     seed = int(hashlib.sha1(path.split("/tests/")[-1].encode()).hexdigest()[:8], 16)
     probs = []
-    for kind in ("ws", "case", "split", "join", "comment", "pragma"):
+    for kind in ("ws", "case", "split", "join", "comment", "pragma", "sep"):
         r = random.Random(seed)
         lines = relayout(o, K, kind, r)
         try:
